@@ -26,13 +26,17 @@ theorem writeBase_realised (thr : Nat) (w : Bool) (p : Option Base) (it : SMap) 
     ∃ f, Realises thr w f (segsBaseO p it) ∧ ∀ b, fastWriteNocopyBase thr w p it b = f (⟨b, []⟩, 0) := by
   cases p with
   | none => exact ⟨stStop, stStop_realises thr w, fun _ => rfl⟩
-  | some q => exact ⟨_, base_realises thr w q it, fun _ => rfl⟩
+  | some q =>
+    exact ⟨_, base_realises thr w q it, fun _ => by
+      simp only [fastWriteNocopyBase, stHdr_base0, stHdr_base1, stHdr_base2, stExtraH_base]⟩
 
 theorem writeResp_realised (thr : Nat) (w : Bool) (p : Option BaseResp) (it : SMap) :
     ∃ f, Realises thr w f (segsRespO p it) ∧ ∀ b, fastWriteNocopyBaseResp thr w p it b = f (⟨b, []⟩, 0) := by
   cases p with
   | none => exact ⟨stStop, stStop_realises thr w, fun _ => rfl⟩
-  | some q => exact ⟨_, resp_realises thr w q it, fun _ => rfl⟩
+  | some q =>
+    exact ⟨_, resp_realises thr w q it, fun _ => by
+      simp only [fastWriteNocopyBaseResp, stHdr_resp0, stHdr_resp1, stExtraH_resp]⟩
 
 /-- everything C11/C15 say about one write of a realised segment list into a buffer that holds it -/
 structure WriteFacts (sg : List Seg) (b : Bytes) (res : TOut (WS × Nat)) : Prop where
